@@ -27,6 +27,18 @@ import (
 
 var id int
 
+// sharding: every shard generates the same case stream and runs the cases with id % nshards == shard
+var shard, nshards = func() (int, int) {
+	a, _ := strconv.Atoi(os.Getenv("VERIF_SHARD"))
+	b, _ := strconv.Atoi(os.Getenv("VERIF_NSHARDS"))
+	if b < 1 {
+		b = 1
+	}
+	return a, b
+}()
+
+func mine(i int) bool { return i%nshards == shard }
+
 func canon(f float64) string {
 	if math.IsNaN(f) {
 		return "7ff8000000000001"
@@ -143,6 +155,9 @@ func readLine(iters, num []byte) string {
 func lineCase(iters, num string, tag string, withSpec bool) {
 	myid := id
 	id++
+	if !mine(myid) {
+		return
+	}
 	ib, nb := []byte(iters), []byte(num)
 	defer func() {
 		if r := recover(); r != nil {
@@ -237,6 +252,9 @@ func allDigits(b []byte) bool {
 func exactCase(mant uint64, exp int, neg bool) {
 	myid := id
 	id++
+	if !mine(myid) {
+		return
+	}
 	defer func() {
 		if r := recover(); r != nil {
 			hx.Printf("crash %d panic: %s\n", myid, strings.ReplaceAll(fmt.Sprint(r), "\n", " "))
@@ -255,6 +273,9 @@ func exactCase(mant uint64, exp int, neg bool) {
 func hexCase(mant uint64, exp int, neg, trunc bool) {
 	myid := id
 	id++
+	if !mine(myid) {
+		return
+	}
 	defer func() {
 		if r := recover(); r != nil {
 			hx.Printf("crash %d panic: %s\n", myid, strings.ReplaceAll(fmt.Sprint(r), "\n", " "))
@@ -272,6 +293,9 @@ func hexCase(mant uint64, exp int, neg, trunc bool) {
 func rintCase(digits string, dp int, trunc bool) {
 	myid := id
 	id++
+	if !mine(myid) {
+		return
+	}
 	defer func() {
 		if r := recover(); r != nil {
 			hx.Printf("crash %d panic: %s\n", myid, strings.ReplaceAll(fmt.Sprint(r), "\n", " "))
@@ -395,6 +419,9 @@ func hexOrDash(b []byte) string {
 func dshiftCase(digits string, dp int, trunc bool, k int) {
 	myid := id
 	id++
+	if !mine(myid) {
+		return
+	}
 	defer func() {
 		if r := recover(); r != nil {
 			hx.Printf("crash %d panic: %s\n", myid, strings.ReplaceAll(fmt.Sprint(r), "\n", " "))
@@ -409,6 +436,9 @@ func dshiftCase(digits string, dp int, trunc bool, k int) {
 func dfbCase(digits string, dp int, neg, trunc bool) {
 	myid := id
 	id++
+	if !mine(myid) {
+		return
+	}
 	defer func() {
 		if r := recover(); r != nil {
 			hx.Printf("crash %d panic: %s\n", myid, strings.ReplaceAll(fmt.Sprint(r), "\n", " "))
@@ -426,8 +456,10 @@ func cheatsCase() {
 		i := strings.IndexByte(e, ':')
 		parts = append(parts, e[:i]+":"+hexOrDash([]byte(e[i+1:])))
 	}
-	hx.Printf("case %d kind=cheats tag=table\n", id)
-	hx.Printf("obs %d n=%d tab=%s\n", id, len(t), strings.Join(parts, ","))
+	if mine(id) {
+		hx.Printf("case %d kind=cheats tag=table\n", id)
+		hx.Printf("obs %d n=%d tab=%s\n", id, len(t), strings.Join(parts, ","))
+	}
 	id++
 }
 
@@ -444,7 +476,8 @@ func randDecimalDigits(r *hx.Rand) string {
 		nd = 1 + r.Intn(40)
 	}
 	ds := []byte(randDigits(r, nd))
-	if ds[0] == '0' && r.Chance(9, 10) {
+	if ds[0] == '0' { // a decimal never has a leading zero digit (set skips them, the shifts keep it so);
+		// floatBits does not terminate on such a non-normalised zero
 		ds[0] = byte('1' + r.Intn(9))
 	}
 	s := string(ds)
@@ -470,8 +503,10 @@ func tableCase() {
 	for _, f := range t {
 		parts = append(parts, hx.F64(f))
 	}
-	hx.Printf("case %d kind=table tag=table\n", id)
-	hx.Printf("obs %d n=%d tab=%s\n", id, len(t), strings.Join(parts, ","))
+	if mine(id) {
+		hx.Printf("case %d kind=table tag=table\n", id)
+		hx.Printf("obs %d n=%d tab=%s\n", id, len(t), strings.Join(parts, ","))
+	}
 	id++
 }
 
